@@ -1050,17 +1050,30 @@ func (c *Ctx) retentionCancel(rule string) {
 		}
 	}
 	r.Floor(rule, "mailbox visitors in the scanner", nVis, 1)
-	eng.EachInstr(start, func(in ssa.Instruction) {
-		call, ok := in.(*ssa.Call)
-		if !ok || eng.StaticCallee(call.Common()) != scan {
-			return
+	// the run loop: wherever the scanner's own code calls the scan (Start, or a helper that
+	// holds the loop)
+	nLoop := 0
+	for _, lf := range scannerFns {
+		lf := lf
+		if lf == scan || p.SyncReach(scan)[lf] && lf != start {
+			continue
 		}
-		if again := (&eng.Search{Target: func(y ssa.Instruction) bool { return y == in }, Avoid: observes, Deep: true}).After(in); again != nil {
-			r.Bad(rule, "loop-observes-cancel", p.InstrPos(in), "the run loop can start the next scan without having looked at ctx.Done()")
-		} else {
-			r.Ok(rule, "loop-observes-cancel", p.InstrPos(in), "between two scans the run loop passes a select on ctx.Done()")
-		}
-	})
+		eng.EachInstr(lf, func(in ssa.Instruction) {
+			call, ok := in.(*ssa.Call)
+			if !ok || eng.StaticCallee(call.Common()) != scan {
+				return
+			}
+			nLoop++
+			if again := (&eng.Search{Target: func(y ssa.Instruction) bool { return y == in }, Avoid: observes, Deep: true}).After(in); again != nil {
+				r.Bad(rule, "loop-observes-cancel", p.InstrPos(in), "the run loop can start the next scan without having looked at ctx.Done()")
+			} else {
+				r.Ok(rule, "loop-observes-cancel", p.InstrPos(in), "between two scans the run loop passes a select on ctx.Done()")
+			}
+		})
+	}
+	if nLoop == 0 {
+		r.Undecided(rule, "loop-observes-cancel", p.Pos(start.Pos()), "the call of the scan was not found in the scanner's run loop")
+	}
 	joins := false
 	eng.EachInstr(join, func(in ssa.Instruction) {
 		if u, ok := in.(*ssa.UnOp); ok && u.Op == token.ARROW && eng.SameField(eng.LoadedField(u.X), fShut) {
